@@ -15,6 +15,7 @@ Definition opt_eqb {X} (eqb : X -> X -> bool) (a b : option X) : bool :=
 
 Definition nl_eqb := list_eqb Nat.eqb.
 Definition nll_eqb := list_eqb nl_eqb.
+Definition zll_eqb := list_eqb (list_eqb Z.eqb).
 
 Definition kel_eqb (a b : kel) : bool :=
   nl_eqb (kel_transition a) (kel_transition b) && nll_eqb (kel_codes a) (kel_codes b).
@@ -54,8 +55,8 @@ Record obs := mkObs {
   o_log_all : option (list kel);          (* get_error_log(False), kernels sorted by identifier *)
   o_log_post : option (list kel);         (* get_error_log(True); None = Option(None) *)
   o_summary : option summary;             (* None = Summary(results) raised *)
-  o_samples_all : list (list nat);        (* get_samples() of the first position key *)
-  o_samples_post : option (list (list nat)) }.   (* get_posterior_samples(); None = raised *)
+  o_samples_all : list (list Z);          (* get_samples() of the first position key *)
+  o_samples_post : option (list (list Z)) }.   (* get_posterior_samples(); None = raised *)
 
 Definition model_log (post_only : bool) (r : run) : option (list kel) :=
   opt_all (map (fun k => error_log post_only (r_sched r) (k_E k)) (r_kernels r)).
@@ -66,8 +67,8 @@ Definition agree_bits (c : run * obs) : list bool :=
   [ opt_eqb (list_eqb kel_eqb) (model_log false r) (o_log_all o);
     opt_eqb (list_eqb kel_eqb) (model_log true r) (o_log_post o);
     opt_eqb summary_eqb (summarize r) (o_summary o);
-    nll_eqb (all_samples (r_sched r) (r_init r) (r_pos r)) (o_samples_all o);
-    opt_eqb nll_eqb (posterior_samples (r_sched r) (r_pos r)) (o_samples_post o) ].
+    zll_eqb (all_samples (r_sched r) (r_init r) (r_pos r)) (o_samples_all o);
+    opt_eqb zll_eqb (posterior_samples (r_sched r) (r_pos r)) (o_samples_post o) ].
 
 Definition agrees (c : run * obs) : bool := forallb (fun b => b) (agree_bits c).
 
